@@ -6,9 +6,9 @@ import msuite
 PID = 'C14'
 TAGS = ['tbegin', 'tick', 'tbodyend', 'tend', 'caught', 'log']
 RULE = ('1-3 tickers (some in volatile child tasks closed at the end of their scope while the run continues) (interval or delay; periods 0, 1/2, 1, 2; 1-5 iterations) whose body runs take shorter than, exactly, or '
-        'longer than the period (durations drawn from the same grid), started at times 0/1/2 or after a delay, alone, nested in '
+        'longer than the period (durations drawn from the same grid), started at times 0/1/2, below zero (grids and pauses that hit date 0), near 2^34 / 2^40, or after a delay, alone, nested in '
         'until()-scopes with deadlines, or next to other tickers and a spinner activity; IntervalExceeded and ValueError '
-        '(negative period) are caught and logged; exact rational times; non-trivial = at least 3 ticks')
+        '(negative period) are caught and logged; exact rational times; the same programs once more under `python -O` (judged only: the documented errors are not assertions); non-trivial = at least 3 ticks')
 
 
 def family(rng):
@@ -39,7 +39,7 @@ def family(rng):
         roots.append(['prog'] + prog)
     if rng.random() < 0.5:
         roots.append(['prog'] + [['sleep', 0], ['log', 200]] * rng.randint(1, 4))
-    return ['scenario', ['debug', 1], ['start', rng.choice([0, 0, 1, 2, 2 ** 34, 2 ** 40 + 1])], ['flags', 1], ['locks', 0], ['roots'] + roots]
+    return ['scenario', ['debug', 1], ['start', rng.choice([0, 0, 1, 2, -1, -2, F(-5, 2), -4, 2 ** 34, 2 ** 40 + 1])], ['flags', 1], ['locks', 0], ['roots'] + roots]
 
 
 def nontrivial(impl):
@@ -48,7 +48,7 @@ def nontrivial(impl):
 
 def run(tier, seed, drv):
     return msuite.standard_run(PID, 'C14', TAGS, tier, seed, drv, [family], nontrivial=nontrivial, rule=RULE,
-                               n_quick=200, n_thorough=6000)
+                               n_quick=200, n_thorough=6000, optimized=200 if tier == 'quick' else 1500)
 
 
 def replay(data, drv):
